@@ -186,6 +186,35 @@ static inline void unit3 (vp::Src& s, long double o[3])
 }
 static inline long double pow10neg (int k) { return powl (10.0L, -(long double) k); }
 
+// Sequenced draw helpers.  The order of evaluation of function arguments and of the operands of an operator is
+// unspecified (g++ and clang++ differ), and a replay must decode to the same case under both compilers, so an
+// expression may contain at most ONE draw; everything else goes through these helpers or separate statements.
+static inline long double draw_sign (vp::Src& s) { return s.coin () ? 1.0L : -1.0L; }
+static inline long double draw_pow10 (vp::Src& s, int maxk, int off = 0) // 10^-(k+off), k in [0,maxk]
+{
+    int k = (int) s.below (maxk + 1);
+    return pow10neg (k + off);
+}
+static inline long double draw_signed_pow10 (vp::Src& s, int maxk, int off = 0)
+{
+    long double sg = draw_sign (s);
+    long double p  = draw_pow10 (s, maxk, off);
+    return sg * p;
+}
+static inline long double draw_pow10_mant (vp::Src& s, int maxk, int off = 0) // 10^-(k+off) * [1,2)
+{
+    long double p = draw_pow10 (s, maxk, off);
+    long double m = 1 + (long double) s.unit ();
+    return p * m;
+}
+template <class T, class F> static inline Vec3<T> draw_vec3 (F f)
+{
+    T a = f ();
+    T b = f ();
+    T c = f ();
+    return Vec3<T> (a, b, c);
+}
+
 enum QClass
 {
     QC_UNIFORM,
@@ -300,14 +329,17 @@ template <class T> static Vec3<T> gen_vec (vp::Src& s)
     int E = TN<T>::vexp ();
     switch (s.below (6))
     {
-        case 0: return Vec3<T> ((T) s.range (-3, 3), (T) s.range (-3, 3), (T) s.range (-3, 3));
+        case 0: return draw_vec3<T> ([&] { return (T) s.range (-3, 3); });
         case 1: {
             Vec3<T> v (0, 0, 0);
-            v[(int) s.below (3)] = std::ldexp ((T) (s.coin () ? 1 : -1), (int) s.range (-E, E));
+            int     k  = (int) s.below (3);
+            T       sg = (T) draw_sign (s);
+            int     ex = (int) s.range (-E, E);
+            v[k]       = std::ldexp (sg, ex);
             return v;
         }
         case 2:
-        case 3: return Vec3<T> (gen::moderate<T> (s), gen::moderate<T> (s), gen::moderate<T> (s));
+        case 3: return draw_vec3<T> ([&] { return gen::moderate<T> (s); });
         case 4: {
             int     e0 = (int) s.range (-E + 24, E);
             Vec3<T> v;
@@ -316,9 +348,14 @@ template <class T> static Vec3<T> gen_vec (vp::Src& s)
             return v;
         }
         default: {
-            Vec3<T> v (gen::moderate<T> (s), gen::moderate<T> (s), gen::moderate<T> (s));
-            v[(int) s.below (3)] = 0;
-            if (s.coin ()) v[(int) s.below (3)] = 0;
+            Vec3<T> v  = draw_vec3<T> ([&] { return gen::moderate<T> (s); });
+            int     k1 = (int) s.below (3);
+            v[k1]      = 0;
+            if (s.coin ())
+            {
+                int k2 = (int) s.below (3);
+                v[k2]  = 0;
+            }
             return v;
         }
     }
@@ -398,7 +435,10 @@ template <class T> static void rotate_case (vp::Ctx& c)
         }
     // Matrix33 * Quat and Quat * Matrix33 are products with toMatrix33()
     {
-        Matrix33<T> A (gen::nice<T> (c.s), gen::nice<T> (c.s), gen::nice<T> (c.s), gen::nice<T> (c.s), gen::nice<T> (c.s), gen::nice<T> (c.s), gen::nice<T> (c.s), gen::nice<T> (c.s), gen::nice<T> (c.s));
+        Matrix33<T> A;
+        for (int i = 0; i < 3; ++i)
+            for (int j = 0; j < 3; ++j)
+                A[i][j] = gen::nice<T> (c.s);
         Matrix33<T> L = A * q, R = q * A;
         QM<3>       QA = QM<3>::from (A), Q3 = QM<3>::from (M3);
         QM<3>       WL = QA * Q3, WR = Q3 * QA, AL = absmul (QA, Q3), AR = absmul (Q3, QA);
@@ -559,7 +599,11 @@ template <class T> static void algebra_case (vp::Ctx& c)
         // exp of an arbitrary pure quaternion |w| <= 2 pi
         long double n[3];
         unit3 (c.s, n);
-        long double mag = c.s.coin () ? 2 * PI_L * (long double) c.s.unit () : pow10neg ((int) c.s.below (TN<T>::maxk () + 1)) * (long double) c.s.unit ();
+        long double mag;
+        if (c.s.coin ())
+            mag = 2 * PI_L * (long double) c.s.unit ();
+        else
+            mag = draw_pow10_mant (c.s, TN<T>::maxk ()) / 2;
         Quat<T>     w ((T) 0, (T) (n[0] * mag), (T) (n[1] * mag), (T) (n[2] * mag));
         Quat<T>     ew = w.exp ();
         Q4          WE = q_exp (toQ (w));
@@ -658,7 +702,7 @@ template <class T> static void extract_case (vp::Ctx& c)
         {
             case 0: ang = PI_L; break;                                                                                      // symmetric matrix, r = 0
             case 1: ang = PI_L - pow10neg ((int) c.s.below (TN<T>::maxk () + 1)); break;                                    // near pi
-            case 2: ang = 2 * PI_L / 3 + (c.s.coin () ? 1 : -1) * pow10neg ((int) c.s.below (TN<T>::maxk () + 1) + 1); break; // trace ~ 0
+            case 2: ang = 2 * PI_L / 3 + draw_signed_pow10 (c.s, TN<T>::maxk (), 1); break;                                 // trace ~ 0
             case 3: ang = pow10neg ((int) c.s.below (TN<T>::maxk () + 1)); break;                                           // tiny
             default: ang = PI_L * (long double) c.s.unit (); break;
         }
@@ -668,6 +712,7 @@ template <class T> static void extract_case (vp::Ctx& c)
             int k = (int) c.s.below (3);
             n[(k + 1) % 3] = (c.s.coin () ? 1 : -1) * fabsl (n[k]);
             long double l = sqrtl (n[0] * n[0] + n[1] * n[1] + n[2] * n[2]);
+            if (l == 0) n[0] = 1, l = 1; // (0,0,+-1) with the third component overwritten
             for (int i = 0; i < 3; ++i)
                 n[i] /= l;
         }
@@ -719,8 +764,12 @@ template <class T> static void axis_angle_case (vp::Ctx& c)
     switch (c.s.below (4))
     {
         case 0: {
-            ax = Vec3<T> ((T) c.s.range (-3, 3), (T) c.s.range (-3, 3), (T) c.s.range (-3, 3));
-            if (ax.x == 0 && ax.y == 0 && ax.z == 0) ax[(int) c.s.below (3)] = 1;
+            ax = draw_vec3<T> ([&] { return (T) c.s.range (-3, 3); });
+            if (ax.x == 0 && ax.y == 0 && ax.z == 0)
+            {
+                int k = (int) c.s.below (3);
+                ax[k] = 1;
+            }
             break;
         }
         case 1: {
@@ -744,7 +793,7 @@ template <class T> static void axis_angle_case (vp::Ctx& c)
         case 0: {
             static const long double sp[] = { 0, PI_L / 2, PI_L, 3 * PI_L / 2, 2 * PI_L, PI_L / 3, PI_L / 4 };
             long double              a    = c.s.pick (sp);
-            if (c.s.coin ()) a += (c.s.coin () ? 1 : -1) * pow10neg ((int) c.s.below (TN<T>::maxk () + 1));
+            if (c.s.coin ()) a += draw_signed_pow10 (c.s, TN<T>::maxk ());
             ang = (T) a;
             if (c.s.coin ()) ang = -ang;
             c.label (LD_ANGLE_SPECIAL);
@@ -831,12 +880,20 @@ template <class T> static void gen_dir_pair (vp::Ctx& c, Vec3<T>& from, Vec3<T>&
         {
             case 0: return 1.0L;
             case 1: return std::ldexp (1.0L, (int) s.range (-20, 20));
-            default: return std::ldexp (1.0L + (long double) s.unit (), (int) s.range (-20, 20));
+            default: {
+                long double m  = 1.0L + (long double) s.unit ();
+                int         ex = (int) s.range (-20, 20);
+                return std::ldexp (m, ex);
+            }
         }
     };
     auto small_int_vec = [&] () -> Vec3<T> {
-        Vec3<T> v ((T) s.range (-3, 3), (T) s.range (-3, 3), (T) s.range (-3, 3));
-        if (v.x == 0 && v.y == 0 && v.z == 0) v[(int) s.below (3)] = (T) (s.coin () ? 1 : -1);
+        Vec3<T> v = draw_vec3<T> ([&] { return (T) s.range (-3, 3); });
+        if (v.x == 0 && v.y == 0 && v.z == 0)
+        {
+            int k = (int) s.below (3);
+            v[k]  = (T) draw_sign (s);
+        }
         return v;
     };
     auto rand_dir = [&] (long double o[3]) {
@@ -844,12 +901,15 @@ template <class T> static void gen_dir_pair (vp::Ctx& c, Vec3<T>& from, Vec3<T>&
         if (s.chance (32))
         { // one tiny or zero component -> exercises the smallest-component selection of the fallback
             int k = (int) s.below (3);
-            o[k]  = s.coin () ? 0 : o[k] * pow10neg ((int) s.below (12));
+            if (s.coin ())
+                o[k] = 0;
+            else
+                o[k] *= draw_pow10 (s, 11);
         }
         if (s.chance (24))
         { // two components of equal magnitude
             int k          = (int) s.below (3);
-            o[(k + 1) % 3] = (s.coin () ? 1 : -1) * o[k];
+            o[(k + 1) % 3] = draw_sign (s) * o[k];
         }
         long double l = sqrtl (o[0] * o[0] + o[1] * o[1] + o[2] * o[2]);
         if (l == 0)
@@ -904,7 +964,11 @@ template <class T> static void gen_dir_pair (vp::Ctx& c, Vec3<T>& from, Vec3<T>&
             {
                 case 0: a = PI_L - pow10neg (k) * (1 + (long double) s.unit ()); break;
                 case 1: a = pow10neg (k) * (1 + (long double) s.unit ()); break;
-                case 2: a = PI_L / 2 + (s.coin () ? 1 : -1) * pow10neg (k + 1) * (long double) s.unit (); break;
+                case 2: {
+                    long double sg = draw_sign (s);
+                    a              = PI_L / 2 + sg * pow10neg (k + 1) * (long double) s.unit ();
+                    break;
+                }
                 case 3: a = PI_L * (long double) s.range (0, 8) / 8; break;
                 default: a = PI_L * (long double) s.unit (); break;
             }
@@ -933,7 +997,9 @@ template <class T> static void gen_dir_pair (vp::Ctx& c, Vec3<T>& from, Vec3<T>&
             {
                 T   big = std::max (std::abs (to.x), std::max (std::abs (to.y), std::abs (to.z)));
                 int kk  = (int) s.range (6, std::numeric_limits<T>::digits + 8);
-                to[(int) s.below (3)] += std::ldexp (big, -kk) * (T) (s.coin () ? 1 : -1);
+                int ii  = (int) s.below (3);
+                T   sg  = (T) draw_sign (s);
+                to[ii] += std::ldexp (big, -kk) * sg;
             }
             else if (m == 2)
             {
@@ -1145,10 +1211,15 @@ template <class T> static void slerp_case (vp::Ctx& c)
     switch (acls)
     {
         case 0: a = 0; break;
-        case 1: a = pow10neg ((int) s.below (TN<T>::maxk () + 1)) * (1 + (long double) s.unit ()); break;
+        case 1: a = draw_pow10_mant (s, TN<T>::maxk ()); break;
         case 2: a = thr * (0.5L + 1.5L * (long double) s.unit ()); break;
-        case 3: a = PI_L / 2 + (s.coin () ? 1 : -1) * pow10neg ((int) s.below (TN<T>::maxk () + 1) + 1); break;
-        case 4: a = shortest ? PI_L - pow10neg ((int) s.below (TN<T>::maxk () + 1)) * (long double) s.unit () : 2.5L + 0.5L * (long double) s.unit (); break;
+        case 3: a = PI_L / 2 + draw_signed_pow10 (s, TN<T>::maxk (), 1); break;
+        case 4:
+            if (shortest)
+                a = PI_L - draw_pow10_mant (s, TN<T>::maxk ()) / 2;
+            else
+                a = 2.5L + 0.5L * (long double) s.unit ();
+            break;
         default: a = (shortest ? PI_L : 3.0L) * (long double) s.unit (); break;
     }
     Quat<T> q2 = a == 0 ? q1 : quat_at_angle<T> (s, q1, a);
